@@ -119,6 +119,7 @@ func (s *DB) batchTimeoutHandle(ctx context.Context) {
 				continue
 			}
 
+			verifPause("db.flush.betweenWriteAndReset")
 			s.batch.Reset()
 			s.sizeBatch = 0
 			s.mutBatch.Unlock()
@@ -144,6 +145,7 @@ func (s *DB) updateBatchWithIncrement() error {
 		return err
 	}
 
+	verifPause("db.flush.betweenWriteAndReset")
 	s.batch.Reset()
 	s.sizeBatch = 0
 
@@ -155,6 +157,7 @@ func (s *DB) Put(key, val []byte) error {
 	s.mutBatch.RLock()
 	err := s.batch.Put(key, val)
 	s.mutBatch.RUnlock()
+	verifPause("db.put.afterBatchPut")
 
 	if err != nil {
 		return err
@@ -182,6 +185,7 @@ func (s *DB) Get(key []byte) ([]byte, error) {
 		return data, nil
 	}
 
+	verifPause("db.get.beforeDiskRead")
 	data, err := db.Get(key, nil)
 	if err == leveldb.ErrNotFound {
 		return nil, common.ErrKeyNotFound
@@ -212,6 +216,7 @@ func (s *DB) Has(key []byte) error {
 		return nil
 	}
 
+	verifPause("db.has.beforeDiskRead")
 	has, err := db.Has(key, nil)
 	if err != nil {
 		return err
